@@ -64,6 +64,6 @@ AverageDirectionalIndex_Sig(cfg, sg, c, v) ==
     LET d == FCmp(v[2], v[3])
     IN  {[sg |-> sg,
           sigs |-> <<{Act(B2I(over) * d)},
-                     IF d = 0 THEN {0} ELSE ActFSet(FxSub(v[2].x, v[3].x))>>]
+                     IF d = 0 THEN {0, -1} ELSE ActFSet(FxSub(v[2].x, v[3].x))>>]
          : over \in GtSet(v[1].x, cfg.zone)}
 =============================================================================
